@@ -1,10 +1,17 @@
 import DustVerif.Proofs.RtpsRel
+import DustVerif.Proofs.AckWaitLemmas
+import DustVerif.Props.C01
 /-! Property C04 (protocol part): a VOLATILE reader never receives a sample written before it was matched.
     At match time `add_matched_reader` (stateful_writer.rs:74) sets `first_relevant_sample_seq_num` to the highest
     sequence number in the history for a VOLATILE reader and to 0 for TRANSIENT_LOCAL; the theorems below show that
     nothing at or below that number is ever sent as DATA / DATA_FRAG, requested, buffered or delivered.
-    The DCPS-level parts (wait_for_historical_data, KEEP_LAST history) and the liveness clause
-    `C04_tl_gets_history` (an instance of `C01_eventual_statement`, unproved) are outside this file. -/
+    `wait_for_historical_data` (reader_methods.rs:522, communication_methods.rs:628): `C04_hist_received_sound` —
+    `is_historical_data_received` implies that everything the newest heartbeat announced was delivered or is gone —
+    and, for the wait list, `C04_wait_hist_sound` / `C04_wait_hist_kept` (namespace `DustVerif.AckWait`).
+    The liveness clause is stated, not proved (`C04_tl_gets_history_statement`) and checked by the oracle of
+    vlib/props/C04.py on the full stack. All theorems are about ONE reader of the writer per participant: on the real
+    stack a second reader of the same writer in the same participant sees the first one's DATA and GAP submessages
+    (open finding D-rtps-2). -/
 namespace DustVerif.Rtps
 
 /-- what `add_matched_reader` fixes at the first match: VOLATILE = highest sequence number held, TRANSIENT_LOCAL = 0 -/
@@ -52,5 +59,125 @@ example :
         [.write [1], .write [2], .doMatch, .write [3], .deliver 0, .deliver 0, .deliver 0] with
       | .ok s => (s.w.firstRel, s.r.cache.map snOf)
       | .panic => (0, [])) = (2, [3]) := by decide
+
+theorem rangeIncl_isEmpty (lo hi : Nat) (h : (rangeIncl lo hi).isEmpty = true) : hi < lo := by
+  unfold rangeIncl at h
+  cases hn : hi + 1 - lo with
+  | zero => omega
+  | succ n => rw [hn] at h; simp [List.range_succ_eq_map] at h
+
+/-- **C04_hist_received_sound**: for EVERY step list: when the reliable reader's `is_historical_data_received` holds
+    (a heartbeat was processed and nothing is missing), every sequence number up to `last_available_seq_num` — the `last`
+    of the newest heartbeat processed, i.e. the highest number the writer held when it sent it, which is at or after the
+    match — was delivered or is gone; a change the writer still holds, relevant and announced by that heartbeat IS in the
+    cache. Needs fixes/D2_D8.patch and fixes/D43.patch (both on main). -/
+theorem C04_hist_received_sound (cfg : Cfg) (hfix : cfg.fixD43 = true) (hfix2 : cfg.fixD2 = true) (tl : Bool) (f : Nat)
+    (hf : 1 ≤ f) (hf16 : f < 65536) (steps : List Step) (hsteps : ∀ st, st ∈ steps → StepOK st) (s : Sys)
+    (hrun : Sys.run cfg (Sys.init true tl f) steps = .ok s) (p : WProxy) (hp : s.r.proxy = some p)
+    (hh : DustVerif.AckWait.proxyHistReceived p = true) :
+    (∀ sn, 1 ≤ sn → sn ≤ p.lastAvail → (∃ c, c ∈ s.r.cache ∧ c.sn = sn) ∨ s.Gone sn) ∧
+    (∀ c, c ∈ s.w.changes → c.sn > s.w.firstRel → c.sn ≤ p.lastAvail → c ∈ s.r.cache) := by
+  simp only [DustVerif.AckWait.proxyHistReceived, Bool.and_eq_true, decide_eq_true_eq] at hh
+  have hlt := rangeIncl_isEmpty _ _ hh.2
+  have hle : p.lastAvail ≤ p.availMax := by
+    unfold WProxy.availMax
+    omega
+  constructor
+  · intro sn h1 h2
+    exact C01_no_skip cfg hfix hfix2 tl f hf hf16 steps hsteps s hrun p hp sn h1 (by omega)
+  · intro c hc hr hl
+    exact C01_held_not_skipped cfg hfix hfix2 tl f hf hf16 steps hsteps s hrun p hp c hc hr (by omega)
+
+/-- **C04_tl_gets_history — STATEMENT ONLY (unproved)**: a reliable TRANSIENT_LOCAL reader matched at any step: after a
+    healing suffix every change the writer held at match time and still holds is in the reader's cache and
+    `is_historical_data_received` holds (so `wait_for_historical_data` is answered, `C04_wait_hist_sound`). With
+    KEEP_LAST the writer history at match time is the last `depth` samples per instance (writer-history invariant C27).
+    Checked by the oracle of vlib/props/C04.py on the full stack with lossy catch-up. -/
+def C04_tl_gets_history_statement : Prop :=
+  ∀ (f : Nat) (before after : List Step) (s₁ s₂ : Sys), 1 ≤ f → f < 65536 →
+    (∀ st, st ∈ before ++ after → StepOK st) →
+    Sys.run Cfg.fixed (Sys.init true true f) (before ++ [.doMatch]) = .ok s₁ →
+    Sys.run Cfg.fixed s₁ after = .ok s₂ → s₂.w.changes ≠ [] →
+    ∃ k s₃, k ≤ 2 * s₂.lastSn + 4 ∧ Sys.heal Cfg.fixed k s₂ = .ok s₃ ∧
+      (∀ c, c ∈ s₁.w.changes → c ∈ s₃.w.changes → c ∈ s₃.r.cache) ∧ DustVerif.AckWait.histReceived s₃.r = true
+
+/-- open finding D-rtps-4 (why the statement above needs a non-empty history): a reliable writer sends HEARTBEATs only
+    while it holds unacknowledged changes, so a TRANSIENT_LOCAL reader matched with a writer whose history is EMPTY
+    never sees a heartbeat, `is_historical_data_received` stays false and `wait_for_historical_data` never completes
+    (until the writer's first write). -/
+theorem C04_empty_history_never_received_counterexample :
+    (match Sys.run Cfg.fixed (Sys.init true true 8) [.doMatch] with
+      | .ok s => (match Sys.heal Cfg.fixed 10 s with
+          | .ok s' => (DustVerif.AckWait.histReceived s'.r, s'.net, s'.w.changes)
+          | .panic => (true, [], []))
+      | .panic => (true, [], [])) = (false, [], []) := by decide
+
+/-- one instance (a test, not a proof): history {1, 3} (2 removed), late reader, the first DATA lost -/
+example :
+    (match Sys.run Cfg.fixed (Sys.init true true 8) [.write [1], .write [2], .write [3], .remove 2, .doMatch, .tick 10, .drop 0] with
+      | .ok s => (match Sys.heal Cfg.fixed 2 s with
+          | .ok s' => (s'.r.cache.map snOf, DustVerif.AckWait.histReceived s'.r)
+          | .panic => ([], false))
+      | .panic => ([], false)) = ([1, 3], true) := by decide
+
+end DustVerif.Rtps
+
+/-! ## wait_for_historical_data: the reader-side wait list -/
+namespace DustVerif.Rtps
+open DustVerif.AckWait
+open DustVerif.Rtps
+
+/-- **C04_wait_hist_sound**: a `wait_for_historical_data` caller is answered `Ok` only at a step after which
+    `is_historical_data_received` holds (at the call itself, or when a heartbeat is handled), never for a VOLATILE reader
+    (`IllegalOperation`); with `C04_hist_received_sound`: everything announced by the newest heartbeat was delivered. -/
+theorem C04_wait_hist_sound (cfg : Cfg) (s s' : RSt) (ev : REv) (ids : List Nat) (out : List Dgram) (id : Nat)
+    (h : rstep cfg s ev = .ok (s', .ok ids, out)) (hid : id ∈ ids) : histReceived s'.r = true ∧ s.volatile = false ∨
+      (histReceived s'.r = true ∧ ∃ m, ev = .sub m ∧ isHb m = true) := by
+  cases ev with
+  | sub m =>
+    simp only [rstep] at h
+    split at h
+    · cases h
+    · split at h
+      · rename_i hc
+        injection h with h; injection h with h1 h2; subst h1
+        exact Or.inr ⟨hc.2, m, rfl, hc.1⟩
+      · injection h with h; injection h with _ h2; injection h2 with h2 _; cases h2
+  | matchWriter =>
+    simp only [rstep] at h
+    injection h with h; injection h with _ h2; injection h2 with h2 _; cases h2
+  | waitHist w =>
+    simp only [rstep] at h
+    split at h
+    · injection h with h; injection h with _ h2; injection h2 with h2 _; cases h2
+    · rename_i hv
+      split at h
+      · rename_i hh
+        injection h with h; injection h with h1 _; subst h1
+        exact Or.inl ⟨hh, by simpa using hv⟩
+      · injection h with h; injection h with _ h2; injection h2 with h2 _; cases h2
+
+/-- **C04_wait_hist_kept**: no step loses a parked `wait_for_historical_data` caller: it is answered or still parked -/
+theorem C04_wait_hist_kept (cfg : Cfg) (s s' : RSt) (ev : REv) (a : RAns) (out : List Dgram) (id : Nat)
+    (h : rstep cfg s ev = .ok (s', a, out)) (hid : id ∈ s.waiters) : (∃ ids, a = .ok ids ∧ id ∈ ids) ∨ id ∈ s'.waiters := by
+  cases ev with
+  | sub m =>
+    simp only [rstep] at h
+    split at h
+    · cases h
+    · split at h
+      · injection h with h; injection h with h1 h2; injection h2 with h2 _; subst h1; subst h2
+        exact Or.inl ⟨_, rfl, hid⟩
+      · injection h with h; injection h with h1 _; subst h1; exact Or.inr hid
+  | matchWriter =>
+    simp only [rstep] at h
+    injection h with h; injection h with h1 _; subst h1; exact Or.inr hid
+  | waitHist w =>
+    simp only [rstep] at h
+    split at h
+    · injection h with h; injection h with h1 _; subst h1; exact Or.inr hid
+    · split at h
+      · injection h with h; injection h with h1 _; subst h1; exact Or.inr hid
+      · injection h with h; injection h with h1 _; subst h1; exact Or.inr (List.mem_append_left _ hid)
 
 end DustVerif.Rtps
